@@ -134,7 +134,9 @@ func runTokens(o *oracle, maxLen, rounds, minLen int) {
 		j := jobs[ji]
 		r.Guard(fmt.Sprintf("tokens round=%d len=%d block=%d", j.round, j.length, j.lo), func() {
 			st := newStats("tokens")
-			st.sampling = j.round == 0 && j.length == 3 && j.lo == 0
+			// the block of round 0 holding the sequences (a, b, c, LF, footer),
+			// among them "-> " type LF LF footer
+			st.sampling = j.round == 0 && j.length == 5 && j.lo == 937984
 			toks := insts[j.round]
 			buf := make([]byte, 0, 1024)
 			for idx := j.lo; idx < j.hi; idx++ {
